@@ -101,6 +101,7 @@ type NetSpec struct {
 	Allow, Require, FinalCut, Ephemeral               uint64
 	Maturity                                          uint64
 	Interval                                          time.Duration
+	NoSubsidy                                         bool // foundation subsidy address = void
 }
 
 const far = 1 << 40
@@ -119,6 +120,7 @@ func Specs() []NetSpec {
 		{Name: "v1-mid", DevAddr: 1, Tax: 2, StorageProof: 12, Oak: 3, OakFix: 3, ASIC: 4, Fnd: 3, Allow: far, Require: far + 1, FinalCut: far + 2, Maturity: 0, Interval: SubsidyInterval},
 		{Name: "mixed", DevAddr: 1, Tax: 1, StorageProof: 1, Oak: 2, OakFix: 2, ASIC: 2, Fnd: 3, Allow: 4, Require: 9, FinalCut: 11, Ephemeral: 0, Maturity: 1, Interval: SubsidyInterval},
 		{Name: "v2-only", DevAddr: 1, Tax: 1, StorageProof: 1, Oak: 1, OakFix: 1, ASIC: 1, Fnd: 1, Allow: 1, Require: 1, FinalCut: 6, Ephemeral: 0, Maturity: 1, Interval: SubsidyInterval},
+		{Name: "acc", DevAddr: 1, Tax: 1, StorageProof: 1, Oak: 1, OakFix: 1, ASIC: 1, Fnd: 1, Allow: 1, Require: 1, FinalCut: far, Maturity: 0, Interval: SubsidyInterval, NoSubsidy: true},
 		{Name: "v2-eph5", DevAddr: 1, Tax: 1, StorageProof: 1, Oak: 1, OakFix: 1, ASIC: 1, Fnd: 1, Allow: 1, Require: 1, FinalCut: 8, Ephemeral: 5, Maturity: 2, Interval: SubsidyInterval},
 	}
 }
@@ -158,6 +160,9 @@ func (s NetSpec) Network(k *Keys) *consensus.Network {
 	n.HardforkFoundation.Height = s.Fnd
 	n.HardforkFoundation.PrimaryAddress = k.Addr(AddrFnd)
 	n.HardforkFoundation.FailsafeAddress = k.Addr(AddrFndV2)
+	if s.NoSubsidy {
+		n.HardforkFoundation.PrimaryAddress = types.VoidAddress
+	}
 	n.HardforkV2.AllowHeight = s.Allow
 	n.HardforkV2.RequireHeight = s.Require
 	n.HardforkV2.FinalCutHeight = s.FinalCut
